@@ -419,10 +419,13 @@ def main():
         groups.setdefault(h["config"], []).append(h)
     pending = []  # failing harnesses awaiting native replay: cheapest first, stop at the first confirmed one
     try:
-      for config, group in sorted(groups.items()):
+      built = {}
+      for config in sorted(groups):  # copy /repo for every configuration before anything runs
         gscratch = os.path.join(scratch, "cfg-" + (re.sub(r"\W+", "_", config) or "default"))
         os.makedirs(gscratch)
-        crate, rewritten, injected = build_scratch(gscratch, config)
+        built[config] = (gscratch,) + tuple(build_scratch(gscratch, config))
+      for config, group in sorted(groups.items()):
+        gscratch, crate, rewritten, injected = built[config]
         timeout = int(os.environ.get("VERIF_HARNESS_TIMEOUT", TIER_TIMEOUT[tier]))
         jobs = min(len(group), int(os.environ.get("VERIF_JOBS", "14")))
         # memory budget: harnesses declare their measured peak (`@mem GB`, default 3); keep the sum
